@@ -55,13 +55,13 @@ for d in sorted(glob.glob('/tmp/s5/out/C*/[ab]')):
     if last['detected']:
         rp = last.get('replay') or {}
         what = (rp.get('message') or '; '.join(rp.get('no_longer_checks', []) or []) or '')[:160]
-        what = ''.join(ch if ch.isprintable() else '?' for ch in what)
+        what = ''.join(ch if (ch.isprintable() and ord(ch) < 128) else '?' for ch in what)
 
     def st(h):
         if not h['detected']:
             return 'missed'
         return ('input' if h['with_failing_input'] else 'tie') + ' @' + str(h['verif_commit'])
-    summ = ''.join(ch if ch.isprintable() else '?' for ch in (am.get('summary') or ''))[:110]
+    summ = ''.join(ch if (ch.isprintable() and ord(ch) < 128) else '?' for ch in (am.get('summary') or ''))[:110]
     new_rows[sid] = '| %s | %s | %s | %s | %s |' % (sid, summ.replace('|', '/'), st(first), st(last), what.replace('|', '/').replace('\n', ' '))
 
 idx = os.path.join(OUT, 'INDEX.md')
